@@ -103,6 +103,7 @@ impl Property for C04 {
             ("cancelling".into(), m),
             ("cheaters>=2".into(), m),
             ("cheaters=all".into(), m),
+            ("all-shares-valid-but-sum-invalid".into(), m),
             ("tr:key-odd,R-odd".into(), 5),
             ("tr:key-odd,R-even".into(), 5),
             ("tr:key-even,R-odd".into(), 5),
@@ -264,6 +265,37 @@ fn check<C: Suite>(case: &Case, ctx: &mut Ctx) -> CheckResult {
             }
             let desc = format!("n={} t={} |S|={} cheaters(pos)={:?} kinds={:?} {}", shape.n, shape.t, m, cheat_pos, kinds, parity);
             judge::<C>(ctx, &f.sess.package, &submitted, &f.keys.pubkeys, &cheaters, delta == zero::<C>(), &msg, &desc, "C04")?;
+        }
+    }
+
+    // "whenever aggregation returns a signature, that signature verifies" also when NO share is individually
+    // wrong but the sum cannot be valid: t-1 holders whose key material understates the threshold, coordinator
+    // package without / with an understated threshold (every share then satisfies its own verification equation)
+    if shape.t >= 2 {
+        let k = shape.t as usize - 1;
+        let few: Vec<Id<C>> = f.keys.ids[..k].to_vec();
+        let (nonces, comms) = commit_all::<C>(&f.keys.kps, &few, rng.next());
+        let package = SigningPackage::new(comms, &msg);
+        let mut shares = BTreeMap::new();
+        for id in &few {
+            let kp = &f.keys.kps[id];
+            let lying = frost::keys::KeyPackage::new(*kp.identifier(), *kp.signing_share(), *kp.verifying_share(), *kp.verifying_key(), k as u16);
+            if let Ok(s) = frost::round2::sign(&package, &nonces[id], &lying) {
+                shares.insert(*id, s);
+            }
+        }
+        if shares.len() == k {
+            let vk = *f.keys.pubkeys.verifying_key();
+            for pk_min in [None, Some(k as u16)] {
+                let pubs = PublicKeyPackage::<C>::new(f.keys.pubkeys.verifying_shares().clone(), vk, pk_min);
+                for (name, mode) in modes() {
+                    ctx.eval(&format!("{},{},sub-threshold-all-shares-individually-valid,{name},{}", shape.n, shape.t, pk_min.is_some()), true);
+                    ctx.label("all-shares-valid-but-sum-invalid");
+                    if let Ok(sig) = frost::aggregate_custom(&package, &shares, &pubs, mode) {
+                        ensure!(ctx, vk.verify(&msg, &sig).is_ok(), "C04/invalid-signature-released", "aggregate_custom({name}) returned a signature that does not verify: {k} = t-1 signers, every share individually valid, public package min_signers {:?} (n={} t={})", pk_min, shape.n, shape.t);
+                    }
+                }
+            }
         }
     }
     Ok(())
